@@ -14,4 +14,4 @@ def main(tier):
         explanation='clause -> evidence: every subdivision template of refine (triangles and quadrilaterals, every refined-side pattern) conserves signed area for ARBITRARY vertex positions and any centre point (PROVED, polynomial identity); '
                     'every template is conforming - each interior edge appears once in each direction, the boundary is the parent boundary with exactly the refined sides split, pieces have 3 or 4 vertices (PROVED, exact); transition_type is '
                     'total on every non-empty side subset of 3- and 4-sided columns and selects the template whose refined sides are exactly the given ones (PROVED, exhaustive). On a real rectangular geometry (constructor and operation run by the executor, symbolic spacings and surfaces) refine of all / a subset of columns, bisection, x-bisection, decompose_columns and refine_layers: total plan area and rock volume unchanged, every new column inside one old column with its surface, new columns adding up to the old column area, mesh conforming (connections exactly where two columns share an edge, no orphan node) and the representation invariant of C10: PROVED per operation instance (shared with C10; split_column and refine beside a boundary reproduce known findings). Irregular meshes, polygons with 5+ sides, point-sampled tiling: BOUNDED. 7 known findings.',
-        bounded_timeout=(1200, 3400), extra=[(c10, c10.PROGRAMS_C11)])
+        bounded_timeout=(1200, 3400), extra=[(c10, c10.programs_c11(tier))])
